@@ -88,6 +88,34 @@ theorem C19_parsers_touch_no_package_state :
 theorem C19_parse_total (m : OrderMatchPrepare) : parseRPCBatch repoRpcCfg m ≠ .panic :=
   parseRPCBatch_ne_panic repoRpcCfg C19_repo_checks_present.1 m
 
+/-- **Go map iteration order is irrelevant for the outcome class.**  `ParseRPCBatch` ranges over the Go maps
+`MatchedMarkets` and (per market) `MatchedOrders` in a random order; the model lists the entries in some
+order.  For any two orders of the markets (and, inside a market, of its orders) the outcome class
+(ok / error; never panic) is the same – the result is `ok` exactly when every entry is fine. -/
+theorem C19_parse_class_order_independent (l l' : List (Nat × MatchedMarket)) (hp : l.Perm l') :
+    (parseMarkets repoRpcCfg l).cls = (parseMarkets repoRpcCfg l').cls := by
+  apply cls_eq_of_ok_iff (parseMarkets_ne_panic _ C19_repo_checks_present.1 _)
+    (parseMarkets_ne_panic _ C19_repo_checks_present.1 _)
+  rw [parseMarkets_ok_iff, parseMarkets_ok_iff]
+  exact ⟨fun h e he => h e (hp.mem_iff.2 he), fun h e he => h e (hp.mem_iff.1 he)⟩
+
+theorem C19_parse_class_order_independent_orders (dur : Nat) (l l' : List (Bytes × MatchedOrder)) (hp : l.Perm l') :
+    (parseOrders repoRpcCfg dur l).cls = (parseOrders repoRpcCfg dur l').cls := by
+  apply cls_eq_of_ok_iff (parseOrders_ne_panic _ C19_repo_checks_present.1 _ _)
+    (parseOrders_ne_panic _ C19_repo_checks_present.1 _ _)
+  rw [parseOrders_ok_iff, parseOrders_ok_iff]
+  exact ⟨fun h e he => h e (hp.mem_iff.2 he), fun h e he => h e (hp.mem_iff.1 he)⟩
+
+/-- the same for the `ServerNonces` map of `ParseRPCSign` -/
+theorem C19_sign_class_order_independent (l l' : List (Bytes × Bytes)) (hp : l.Perm l') :
+    (parseNonces l).cls = (parseNonces l').cls := by
+  apply cls_eq_of_ok_iff (parseNonces_ne_panic _) (parseNonces_ne_panic _)
+  rw [parseNonces_ok_iff, parseNonces_ok_iff]
+  exact ⟨fun h e he => h e (hp.mem_iff.2 he), fun h e he => h e (hp.mem_iff.1 he)⟩
+
+example : ([(1, (⟨[]⟩ : MatchedMarket)), (2, ⟨[]⟩)] : List (Nat × MatchedMarket)).Perm [(2, ⟨[]⟩), (1, ⟨[]⟩)] :=
+  List.Perm.swap _ _ _
+
 /-- A parse error is answerable: both handlers hand a reject carrying the message's batch ID to the
 auctioneer client (and do not panic). -/
 theorem C19_reject_answerable (m : OrderMatchPrepare) (e : PErr) (h : parseRPCBatch repoRpcCfg m = .err e) :
